@@ -33,6 +33,8 @@ def generate(rng, seed, index, tier):
         # problems; that is not the subject of C01, so those families go to the homotopy solver only
         fam = "qp"
     spec, x0, y0 = gen.gen_problem(rng, fam)
+    if not integ:
+        x0 = gen.magnify(rng, spec, x0, p=0.15)
     if integ:
         kw = {"iteration_limit": 200}
         if rng.random() < 0.3:
